@@ -350,8 +350,20 @@ func runCont(c *cCase, t *elemType, in cInst, aliased bool) (res cRun) {
 
 // ---- comparison ------------------------------------------------------------------------
 
+// wrap embeds an exact integer into the element type (two's complement wrap-around of the
+// narrow integer types: the modelled sequential deviation may leave the int8 range)
+func wrap(t *elemType, v int) float64 {
+	switch t.name {
+	case "Int8":
+		return float64(int8(v))
+	case "Int16":
+		return float64(int16(v))
+	}
+	return float64(v)
+}
+
 func elemEq(t *elemType, v, d int, o obsElem) string {
-	if o.V != float64(v) {
+	if o.V != wrap(t, v) {
 		return "value"
 	}
 	if t.class == "real" && o.D != float64(d) {
